@@ -184,5 +184,54 @@ HetHash(name, bits) ==
                  + 16*bitAt(sh+4) + 32*bitAt(sh+5) + 64*bitAt(sh+6) + 128*bitAt(sh+7)
   IN  [file |-> file, name1 |-> name1]
 
+
+---------------------------------------------------------------------------
+(* Jenkins one-at-a-time.  The published function works on 32-bit words; the *)
+(* library's `jenkins_hash` (BET) runs the same steps on a 64-bit accumulator *)
+(* over the LOWER-cased, backslash-folded name.  Both are defined; the 64-bit *)
+(* variant is the named deviation "as coded".                                 *)
+
+\* 64-bit words as functions 0..3 -> limb (0 = least significant)
+L64Zero == [j \in 0..3 |-> 0]
+L64FromByte(c) == [j \in 0..3 |-> IF j = 0 THEN c ELSE 0]
+L64Add(a, b) ==
+  LET s0 == a[0] + b[0]
+      s1 == a[1] + b[1] + (s0 \div 65536)
+      s2 == a[2] + b[2] + (s1 \div 65536)
+      s3 == a[3] + b[3] + (s2 \div 65536)
+  IN  [j \in 0..3 |-> CASE j = 0 -> s0 % 65536 [] j = 1 -> s1 % 65536 [] j = 2 -> s2 % 65536 [] j = 3 -> s3 % 65536]
+L64Xor(a, b) == [j \in 0..3 |-> a[j] ^^ b[j]]
+L64Shl(a, sh) ==
+  LET q == sh \div 16  r == sh % 16 IN
+  [j \in 0..3 |-> LET src == j - q IN
+       ((IF src >= 0 THEN (a[src] * Pow2(r)) % 65536 ELSE 0)
+        + (IF src - 1 >= 0 /\ r > 0 THEN a[src - 1] \div Pow2(16 - r) ELSE 0))]
+L64Shr(a, sh) ==
+  LET q == sh \div 16  r == sh % 16 IN
+  [j \in 0..3 |-> LET src == j + q IN
+       ((IF src <= 3 THEN a[src] \div Pow2(r) ELSE 0)
+        + (IF src + 1 <= 3 /\ r > 0 THEN (a[src + 1] % Pow2(r)) * Pow2(16 - r) ELSE 0))]
+L64Limbs(a) == <<a[3], a[2], a[1], a[0]>>        \* most significant first, as logged
+
+OaatFold(c) == Lower(Slash(c))
+Oaat64(name) ==
+  LET step(h, c) == LET h1 == L64Add(h, L64FromByte(OaatFold(c)))
+                        h2 == L64Add(h1, L64Shl(h1, 10))
+                    IN  L64Xor(h2, L64Shr(h2, 6))
+      h0 == FoldLeft(step, L64Zero, name)
+      f1 == L64Add(h0, L64Shl(h0, 3))
+      f2 == L64Xor(f1, L64Shr(f1, 11))
+  IN  L64Limbs(L64Add(f2, L64Shl(f2, 15)))
+
+Oaat32(name) ==
+  LET step(h, c) == LET h1 == Add32(h, WFromNat(OaatFold(c)))
+                        h2 == Add32(h1, Shl32(h1, 10))
+                    IN  Xor32(h2, Shr32(h2, 6))
+      h0 == FoldLeft(step, WZero, name)
+      f1 == Add32(h0, Shl32(h0, 3))
+      f2 == Xor32(f1, Shr32(f1, 11))
+      f3 == Add32(f2, Shl32(f2, 15))
+  IN  <<0, 0, f3[1], f3[2]>>
+
 Hex64(l) == Hex16(l[1]) \o Hex16(l[2]) \o Hex16(l[3]) \o Hex16(l[4])
 =============================================================================
